@@ -16,13 +16,14 @@ import (
 
 type c18Case struct {
 	N       int   `json:"n"`
-	Issuer  []int `json:"issuer"`        // -1 none, 0..n-1 entity, n = undefined alias
-	AMode   []int `json:"amode"`         // 0 file-derived, 1 explicit unique, 2 explicit = next entity's alias, 3 explicit = next entity's file stem
-	Layout  int   `json:"layout"`        // 0 flat, 1 own sub-directory, 2 two levels, 3 same base name in different directories, 4 entities 0 and 1 share directory and stem but differ in suffix
-	Suffix  int   `json:"suffix"`        // index into c18Suffixes (rotated per entity)
-	CLI     bool  `json:"cli"`           // additionally replay on the binary
-	Foreign bool  `json:"foreign"`       // place the foreign files
-	Art     int   `json:"art,omitempty"` // entity 0 already has an artifact file in an odd state (c18Arts), which must not change the verdict
+	Issuer  []int `json:"issuer"`         // -1 none, 0..n-1 entity, n = undefined alias
+	AMode   []int `json:"amode"`          // 0 file-derived, 1 explicit unique, 2 explicit = next entity's alias, 3 explicit = next entity's file stem
+	Layout  int   `json:"layout"`         // 0 flat, 1 own sub-directory, 2 two levels, 3 same base name in different directories, 4 entities 0 and 1 share directory and stem but differ in suffix
+	Suffix  int   `json:"suffix"`         // index into c18Suffixes (rotated per entity)
+	CLI     bool  `json:"cli"`            // additionally replay on the binary
+	Foreign bool  `json:"foreign"`        // place the foreign files
+	Link    bool  `json:"link,omitempty"` // command line only: entity 0's configuration file is a symbolic link to a file kept elsewhere
+	Art     int   `json:"art,omitempty"`  // entity 0 already has an artifact file in an odd state (c18Arts), which must not change the verdict
 }
 
 var c18Suffixes = []string{".yaml", ".yml", ".json", ".YAML", ".Yml", ".JSON", ".yAmL"}
@@ -288,6 +289,9 @@ func c18Enumerate(tier string, yield func(any)) {
 			for suf := 1; suf < len(c18Suffixes); suf++ {
 				for _, layout := range []int{0, 1, 2, 5} {
 					yield(&c18Case{N: n, Issuer: append([]int{}, iss...), AMode: make([]int, n), Layout: layout, Suffix: suf, Foreign: true, CLI: suf == 1 && layout == 1})
+					if suf == 1 && layout < 3 {
+						yield(&c18Case{N: n, Issuer: append([]int{}, iss...), AMode: make([]int, n), Layout: layout, Suffix: suf, Link: true, CLI: true})
+					}
 					if suf == 1 {
 						for art := 1; art < len(c18Arts); art++ {
 							yield(&c18Case{N: n, Issuer: append([]int{}, iss...), AMode: make([]int, n), Layout: layout, Suffix: suf, Art: art})
@@ -333,8 +337,17 @@ func c18Exec(x *engine.Ctx, cc any) {
 		if c.Art > 0 && len(d.Certs) > 0 {
 			w.Put(ArtifactPath(d.Certs[0].Path), c18Art(c.Art))
 		}
+		if c.Link && len(d.Certs) > 0 {
+			if mode == 0 {
+				continue // the in-memory filesystem has no links
+			}
+			p := d.Certs[0].Path
+			w.PutAt("templates/entity-zero.tpl", w.Files[p].Data, w.Files[p].Tick)
+			w.Remove(p)
+			w.Symlinks = map[string]string{p: "templates/entity-zero.tpl"}
+		}
 		before := w.Clone()
-		x.State(fmt.Sprintf("%v %v %d %d %v %d", c.Issuer, c.AMode, c.Layout, c.Suffix, c.Foreign, c.Art))
+		x.State(fmt.Sprintf("%v %v %d %d %v %d %v", c.Issuer, c.AMode, c.Layout, c.Suffix, c.Foreign, c.Art, c.Link))
 		x.Transition(1)
 		var ok bool
 		var summary string
@@ -408,7 +421,7 @@ func c18Exec(x *engine.Ctx, cc any) {
 			continue
 		}
 		if c.N > 0 {
-			x.Nontrivial(fmt.Sprintf("val %v %v %d %d %d", c.Issuer, c.AMode, c.Layout, c.Suffix, c.Art))
+			x.Nontrivial(fmt.Sprintf("val %v %v %d %d %d %v", c.Issuer, c.AMode, c.Layout, c.Suffix, c.Art, c.Link))
 		}
 		// every entity's artifact sits next to its config; nothing else changed
 		want := map[string]bool{}
@@ -479,7 +492,7 @@ func init() {
 	register(&engine.Check{
 		ID:    "C18",
 		Level: "model_checking",
-		Rule: "every issuer function issuer:[n]->{none,0..n-1,undefined} for n<=4 (quick) / n<=6 (thorough); for n<=3 additionally every alias-mode vector in {file-derived, explicit unique, explicit = next entity's alias, explicit = next entity's file stem}^n x 5 directory layouts (incl. dots in directory and file names) and 6 suffix/letter-case variants x 4 layouts; for n in {2,3} every issuer function with two config files sharing directory and stem under 6 suffix pairs (alias collision); foreign files present; for n<=3 also with entity 0's artifact file in five odd states (hash line that is not base64 or too short or unterminated, empty file, plain text), which must not change the verdict. " +
+		Rule: "every issuer function issuer:[n]->{none,0..n-1,undefined} for n<=4 (quick) / n<=6 (thorough); for n<=3 additionally every alias-mode vector in {file-derived, explicit unique, explicit = next entity's alias, explicit = next entity's file stem}^n x 5 directory layouts (incl. dots in directory and file names) and 6 suffix/letter-case variants x 4 layouts; for n in {2,3} every issuer function with two config files sharing directory and stem under 6 suffix pairs (alias collision); foreign files present; for n<=3 also with entity 0's artifact file in five odd states (hash line that is not base64 or too short or unterminated, empty file, plain text), which must not change the verdict, and (command line) with entity 0's configuration file being a symbolic link to a file kept elsewhere. " +
 			"Each case builds the directory, runs Open+Plan+BulkUpdate on simfs (and the built CLI binary for the flagged subset) and compares with the model valid <=> all issuers defined, acyclic, aliases unique; an invalid directory is run again with every generate-flag off and with generate-all alone (still refused, nothing written). non-trivial = distinct (issuer function, alias modes, layout, suffix) case that reached the verdict comparison",
 		Bound:       map[string]string{"entities": "quick<=4, thorough<=6", "alias/layout/suffix variants": "n<=3"},
 		Assumptions: []string{"file stems are distinct per directory and non-empty (a.yaml + a.yml sharing a.pem is outside the statement's quantifier)", "keys are P-224 to keep generation cheap; C18 does not depend on the key type"},
